@@ -26,6 +26,11 @@ Tie:   (a) direct drive: real Channel objects registered in a real (not started)
            receiver streams / status compared with what the sender was given and with `run_case` on the intended
            messages; loopback server writers are phased around the re-key (first half, re-key, second half + exit
            status + EOF) with zlib@openssh.com on, and a dying transport is reported as a concrete failing case;
+       (h) channels opened concurrently from both sides at the id-allocation point: while the server's reader thread
+           is inside check_channel_request for an inbound session (id allocated, not yet registered) another server
+           thread opens an outbound x11 channel (accepted through a request_x11 handler, or refused); every stream of
+           every channel, both directions, and the exit statuses are then compared end to end (id uniqueness itself is
+           C23's theorem; this is C21's observable of it);
        (e) exit status at statement granularity: AST check that _handle_request stores exit_status before it sets
            status_event, and two deterministic two-thread schedules (a recv_exit_status() reader released right after
            status_event.set(), and one released while the handler is still reading the status from the message)
@@ -1361,7 +1366,7 @@ def loopback(ctx, nchan, total, label, plan=None, window=None, cfg=None):
     return problems, plan, comp
 
 
-def _read_n(chan, n, stderr=False, limit=20.0):
+def _read_n(chan, n, stderr=False, limit=6.0):
     """Read up to n bytes (or until EOF / `limit` seconds without completion)."""
     chan.settimeout(2.0)
     out = b""
@@ -1435,7 +1440,9 @@ def concurrent_open(ctx, accept_outbound):
     tc, ts = paramiko.Transport(sa), paramiko.Transport(sb)
     tc.set_log_channel(LOGNAME)
     ts.set_log_channel(LOGNAME)
-    try:
+    stage = ["set-up"]
+
+    def session():
         ts.add_server_key(paramiko.RSAKey.from_private_key_file(os.path.join(ctx.repo, "tests", "_support", "rsa.key")))
         ts.start_server(threading.Event(), Srv())
         tc.start_client(timeout=60)
@@ -1447,46 +1454,55 @@ def concurrent_open(ctx, accept_outbound):
             c0.request_x11(handler=lambda chan, addr: inbound.append(chan))
         c0.exec_command("first")
         st["armed"] = True
-        c1 = tc.open_session(timeout=60)            # the server opens its x11 channel inside this one's callback
+        stage[0] = "second open_session (server opens its x11 channel inside the callback)"
+        c1 = tc.open_session(timeout=60)
+        stage[0] = "accept of the second session"
         s1 = ts.accept(60)
         if "thread" in st:
+            stage[0] = "outbound open_x11_channel completing"
             st["thread"].join(30)
         box = st.get("box", {})
         xs = box.get("chan")
         xc = inbound[0] if inbound else None
-        info = {"outbound": "opened" if xs is not None else box.get("exc", "not attempted"),
-                "other_thread_registered_inside_callback": st.get("registered_inside"),
-                "server_ids": {"s0": getattr(s0, "chanid", None), "s1": getattr(s1, "chanid", None),
-                               "x11": getattr(xs, "chanid", None)}}
+        info.update({"outbound": "opened" if xs is not None else box.get("exc", "not attempted / still waiting"),
+                     "other_thread_registered_inside_callback": st.get("registered_inside"),
+                     "server_ids": {"s0": getattr(s0, "chanid", None), "s1": getattr(s1, "chanid", None),
+                                    "x11": getattr(xs, "chanid", None)}})
         if s1 is None:
             got["accept"] = "server never got the second session channel"
-        else:
-            c1.exec_command("second")
-            c1.sendall(want["c1->s1"])
-            c0.sendall(want["c0->s0"])
-            s1.sendall(want["s1->c1"])
-            s1.sendall_stderr(want["s1->c1 stderr"])
-            s0.sendall(want["s0->c0"])
-            if xs is not None and xc is not None:
-                xs.sendall(want["xs->xc"])
-                xc.sendall(want["xc->xs"])
-                got["xs->xc"] = _read_n(xc, len(want["xs->xc"]))
-                got["xc->xs"] = _read_n(xs, len(want["xc->xs"]))
-            got["c1->s1"] = _read_n(s1, len(want["c1->s1"]))
-            got["c0->s0"] = _read_n(s0, len(want["c0->s0"]))
-            got["s1->c1"] = _read_n(c1, len(want["s1->c1"]))
-            got["s1->c1 stderr"] = _read_n(c1, len(want["s1->c1 stderr"]), stderr=True)
-            got["s0->c0"] = _read_n(c0, len(want["s0->c0"]))
-            s1.send_exit_status(status["s1"])
-            s0.send_exit_status(status["s0"])
-            for nm, ch in (("s1", c1), ("s0", c0)):
-                t_end = time.time() + 20
-                while not ch.exit_status_ready() and time.time() < t_end:
-                    time.sleep(0.01)
-                got["status " + nm] = ch.exit_status if ch.exit_status_ready() else None
-    except Exception as e:  # noqa
-        import traceback
-        got["exception"] = repr(e) + " " + traceback.format_exc()[-500:]
+            return
+        stage[0] = "writes"
+        c1.sendall(want["c1->s1"])
+        c0.sendall(want["c0->s0"])
+        s1.sendall(want["s1->c1"])
+        s1.sendall_stderr(want["s1->c1 stderr"])
+        s0.sendall(want["s0->c0"])
+        stage[0] = "reads"
+        if xs is not None and xc is not None:
+            xs.sendall(want["xs->xc"])
+            xc.sendall(want["xc->xs"])
+            got["xs->xc"] = _read_n(xc, len(want["xs->xc"]))
+            got["xc->xs"] = _read_n(xs, len(want["xc->xs"]))
+        got["c1->s1"] = _read_n(s1, len(want["c1->s1"]))
+        got["c0->s0"] = _read_n(s0, len(want["c0->s0"]))
+        got["s1->c1"] = _read_n(c1, len(want["s1->c1"]))
+        got["s1->c1 stderr"] = _read_n(c1, len(want["s1->c1 stderr"]), stderr=True)
+        got["s0->c0"] = _read_n(c0, len(want["s0->c0"]))
+        stage[0] = "exit status"
+        s1.send_exit_status(status["s1"])
+        s0.send_exit_status(status["s0"])
+        for nm, ch in (("s1", c1), ("s0", c0)):
+            t_end = time.time() + 20
+            while not ch.exit_status_ready() and time.time() < t_end:
+                time.sleep(0.01)
+            got["status " + nm] = ch.exit_status if ch.exit_status_ready() else None
+
+    try:
+        kind, val = with_watchdog(session, 60.0)
+        if kind == "hang":
+            got["exception"] = "no progress: blocked forever in stage '%s'" % stage[0]
+        elif kind == "exc":
+            got["exception"] = "%r in stage '%s'" % (val, stage[0])
     finally:
         for t_ in (tc, ts):
             try:
